@@ -58,7 +58,9 @@ const undef = "\x01UNDEF\x01"
 type KV struct {
 	K string `json:"k"`
 	V string `json:"v"`
-	O bool   `json:"o,omitempty"` // slot prop: the path may not resolve / be nil -> the prop is absent for this use
+	// Lit (slot props only): V is not a path but the content of a string literal, :K="'V'"
+	Lit bool `json:"lit,omitempty"`
+	O   bool `json:"o,omitempty"` // slot prop: the path may not resolve / be nil -> the prop is absent for this use
 }
 
 // For is `v-for="(Idx, Item) in List"` (Idx may be empty: `Item in List`).
@@ -84,18 +86,21 @@ type Supply struct {
 // Node is a template node: "el" (marked element), "text", "slot", "inc" (<template include>), and, in a
 // layout only, "content" (a marked element with v-html="content": the rendered page goes there).
 type Node struct {
-	K    string   `json:"k"`
-	Tag  string   `json:"tag,omitempty"`  // el
-	M    string   `json:"m,omitempty"`    // el: data-m marker (unique per template element)
-	If   string   `json:"if,omitempty"`   // el: v-if path
-	For  *For     `json:"for,omitempty"`  // el: v-for; slot: v-for written on the <slot> element itself
-	Bind []KV     `json:"bind,omitempty"` // el / slot / inc, see KV
-	Stat []KV     `json:"stat,omitempty"` // inc: static props
-	T    []Part   `json:"t,omitempty"`    // text
-	Name string   `json:"name,omitempty"` // slot: name ("" = unnamed)
-	Comp string   `json:"comp,omitempty"` // inc: file name
-	Sup  []Supply `json:"sup,omitempty"`  // inc: slot templates
-	Kids []Node   `json:"kids,omitempty"` // el: children; slot: fallback; inc: plain children
+	K    string `json:"k"`
+	Tag  string `json:"tag,omitempty"`  // el
+	M    string `json:"m,omitempty"`    // el: data-m marker (unique per template element)
+	If   string `json:"if,omitempty"`   // el: v-if path
+	For  *For   `json:"for,omitempty"`  // el: v-for; slot: v-for written on the <slot> element itself
+	Bind []KV   `json:"bind,omitempty"` // el / slot / inc, see KV
+	Stat []KV   `json:"stat,omitempty"` // inc: static props
+	T    []Part `json:"t,omitempty"`    // text
+	// Exact (text): the parts are written one after the other exactly as they are - their white
+	// space is part of the case - instead of as blank-separated tokens on a line of their own
+	Exact bool     `json:"exact,omitempty"`
+	Name  string   `json:"name,omitempty"` // slot: name ("" = unnamed)
+	Comp  string   `json:"comp,omitempty"` // inc: file name
+	Sup   []Supply `json:"sup,omitempty"`  // inc: slot templates
+	Kids  []Node   `json:"kids,omitempty"` // el: children; slot: fallback; inc: plain children
 }
 
 // Comp is one component file.
@@ -269,10 +274,50 @@ func checkRendered(c Case, want []*hx.N) error {
 			return fmt.Errorf("marker #%d: got %v want %v\nwant outline %s\ngot  outline %s\noutput: %s\n%s", i, go_[i], wo[i], hx.Outline(want), hx.Outline(gl), got, describe(c))
 		}
 	}
+	// White space is significant inside <pre>: there the content is compared exactly (everywhere
+	// else all white space was removed from the text above).
+	isPre := func(n *hx.N) bool { return n.Tag == "pre" }
+	gp, wp := hx.Find(gl, isPre), hx.Find(want, isPre)
+	for i := range wp {
+		if i >= len(gp) {
+			break // reported by the outline comparison below
+		}
+		if g, w := exact(gp[i].Kids), exact(wp[i].Kids); g != w {
+			return fmt.Errorf("content of <pre data-m=%q> differs (white space is significant there):\n got %q\nwant %q\noutput: %s\n%s", wp[i].Attrs["data-m"], g, w, got, describe(c))
+		}
+	}
 	if a, b := hx.Outline(gl), hx.Outline(want); a != b {
 		return fmt.Errorf("nesting differs:\nwant %s\ngot  %s\noutput: %s\n%s", b, a, got, describe(c))
 	}
 	return nil
+}
+
+// exact writes a forest with its text exactly as it is (adjacent text nodes run together).
+func exact(l []*hx.N) string {
+	var sb strings.Builder
+	var walk func([]*hx.N)
+	walk = func(l []*hx.N) {
+		for _, n := range l {
+			if n.Tag == "" {
+				sb.WriteString(n.Text)
+				continue
+			}
+			keys := make([]string, 0, len(n.Attrs))
+			for k := range n.Attrs {
+				keys = append(keys, k)
+			}
+			sort.Strings(keys)
+			sb.WriteString("<" + n.Tag)
+			for _, k := range keys {
+				fmt.Fprintf(&sb, " %s=%q", k, n.Attrs[k])
+			}
+			sb.WriteString(">")
+			walk(n.Kids)
+			sb.WriteString("</" + n.Tag + ">")
+		}
+	}
+	walk(l)
+	return sb.String()
 }
 
 func pruneHand(n *hx.N) {
@@ -364,6 +409,22 @@ func TestProp(t *testing.T) {
 			return true
 		})
 	}
+	wsN := 0
+	if done {
+		enumWS(func(c Case) bool {
+			wsN++
+			if wsN%shards != shard {
+				return true
+			}
+			nt, cls := classify(c)
+			cls = append(cls, "white-space-significant-in-pre")
+			if !run.Each(rec, "core", c, true || nt, cls, check) {
+				done = false
+				return false
+			}
+			return true
+		})
+	}
 	hand := 0
 	if done {
 		enumHand(ex, rec, func(c Case) bool {
@@ -380,7 +441,7 @@ func TestProp(t *testing.T) {
 		})
 	}
 	if done {
-		rec.Exhaustive(fmt.Sprintf("core: slot sets x fallback x props x loop x twice x every supply form per slot x 2 instances (%d cases) + supplied-but-empty content x every form (%d cases) + page->layout hand-over: spelling x scope x slot placement x slot in the layout file x own supply (%d cases)", n, edge, hand))
+		rec.Exhaustive(fmt.Sprintf("core: slot sets x fallback x props x loop x twice x every supply form per slot x 2 instances (%d cases) + supplied-but-empty content x every form (%d cases) + page->layout hand-over: spelling x scope x slot placement x slot in the layout file x own supply (%d cases) + white space: supply form x slot in <pre> / per item in <pre> x edge and inner runs x literal props (%d cases)", n, edge, hand, wsN))
 	}
 
 	if compose.Hung() {
@@ -388,6 +449,13 @@ func TestProp(t *testing.T) {
 		return
 	}
 	run.Rapid(t, rec, "random", func(t *rapid.T) Case { return genCase(t, ex, rec) }, classify, check)
+	if compose.Hung() {
+		return
+	}
+	run.Rapid(t, rec, "space", genWS, func(c Case) (bool, []string) {
+		_, cls := classify(c)
+		return true, append(cls, "white-space-significant-in-pre")
+	}, check)
 }
 
 func TestReplay(t *testing.T) { run.ReplayMain(t, prop, replay) }
